@@ -1724,6 +1724,33 @@ pub fn event_hook(id: u32, arg: usize) {
         }
         return;
     }
+    if (verif_rt::IN_USE_WRITE_BASE..verif_rt::IN_USE_WRITE_BASE + 256).contains(&id) {
+        // A node's `in_use` word was written. Anything but USED (1) written by the owner is the
+        // release of the node, however the code does it (cooldown or not).
+        let new = id - verif_rt::IN_USE_WRITE_BASE;
+        if new == 1 {
+            return;
+        }
+        let bad = w(|w| {
+            let node = w.nodes_seen.range(..=arg).next_back().copied()?;
+            if arg - node > 4096 {
+                return None;
+            }
+            match w.node_owner.get(&node).copied() {
+                Some(o) if o == me => {
+                    w.node_owner.remove(&node);
+                    w.live_users = w.live_users.saturating_sub(1);
+                    None
+                }
+                Some(o) => Some(o),
+                None => None,
+            }
+        });
+        if let Some(o) = bad {
+            rt::fail("node-monitor", format!("thread {} released a node owned by thread {}", me, o));
+        }
+        return;
+    }
     let id = id as usize;
     if id == probes::NODE_CLAIMED || id == probes::NODE_CREATED {
         let prev = w(|w| {
@@ -1832,17 +1859,14 @@ pub fn event_hook(id: u32, arg: usize) {
                 *w.extra_counts.entry("node_retired_inside_debt_walk".into()).or_insert(0) += 1;
             }
         });
-        let prev = w(|w| {
-            w.live_users = w.live_users.saturating_sub(1);
-            w.node_owner.remove(&arg)
-        });
-        match prev {
-            Some(p) if p == me => {}
-            Some(p) => rt::fail(
+        // Ownership itself is tracked from the writes to `in_use` (above); by now the node has
+        // been released by that write.
+        let prev = w(|w| w.node_owner.get(&arg).copied());
+        if let Some(p) = prev {
+            rt::fail(
                 "node-monitor",
-                format!("thread {} released a node owned by thread {}", me, p),
-            ),
-            None => rt::fail("node-monitor", format!("thread {} released a node nobody owned", me)),
+                format!("thread {} started the cooldown of a node that thread {} owns", me, p),
+            );
         }
     }
 }
